@@ -21,6 +21,44 @@ class Infra(Exception):
     pass
 
 
+# ---- machine-wide throttle: at most NSLOTS heavy processes (TLC workers, replay shards) at a time,
+# shared by all checks running concurrently on this machine (advisory file locks).
+import fcntl
+NSLOTS = int(os.environ.get("VERIF_SLOTS", "20"))
+SLOTDIR = os.path.join(VERIF, ".work", "slots")
+
+
+def acquire_slots(n, block=True):
+    """Returns a list of open locked file objects (release by closing), or None if block=False and not available."""
+    os.makedirs(SLOTDIR, exist_ok=True)
+    n = min(n, NSLOTS)
+    held = []
+    while True:
+        for i in range(NSLOTS):
+            if len(held) >= n:
+                break
+            f = open(os.path.join(SLOTDIR, "slot-%d" % i), "w")
+            try:
+                fcntl.flock(f, fcntl.LOCK_EX | fcntl.LOCK_NB)
+                held.append(f)
+            except OSError:
+                f.close()
+        if len(held) >= n:
+            return held
+        # could not get all: release and retry (avoids deadlock between concurrent checks)
+        for f in held:
+            f.close()
+        held = []
+        if not block:
+            return None
+        time.sleep(0.5 + (os.getpid() % 10) / 10.0)
+
+
+def release_slots(held):
+    for f in held or []:
+        f.close()
+
+
 def log(*a):
     print(*a, flush=True)
 
@@ -88,10 +126,15 @@ def write_cfg(path, *, spec=None, init=None, next_=None, consts=None, overrides=
 def run_tlc(work, module, cfg, out, workers=16, timeout=1500, extra=()):
     """Runs TLC; returns dict(generated, distinct, depth, violated, error, postcondition_failed, wall)."""
     md = work.path("md-" + os.path.basename(out))
+    workers = min(workers, max(1, NSLOTS // 2))
     cmd = ["timeout", str(timeout), "tlc", "-workers", str(workers), "-metadir", md, "-config", cfg] + list(extra) + [module]
+    held = acquire_slots(workers)
     t0 = time.time()
-    with open(out, "w") as f:
-        rc = subprocess.call(cmd, cwd=work.dir, stdout=f, stderr=subprocess.STDOUT)
+    try:
+        with open(out, "w") as f:
+            rc = subprocess.call(cmd, cwd=work.dir, stdout=f, stderr=subprocess.STDOUT)
+    finally:
+        release_slots(held)
     res = dict(rc=rc, wall=time.time() - t0, generated=0, distinct=0, depth=0, violated=None, error=None,
                postcondition_failed=False, last_l=None)
     tail = []
@@ -161,23 +204,53 @@ def run_harness(work, binary, test, env, out, timeout=3000):
 
 def replay(work, binary, edges, const, tag, shards=8, rej_sample=0, explore=4, test="TestReplay", extra_env=None):
     """Runs graph replay in `shards` parallel processes; returns (stats list, trace files)."""
-    procs = []
-    for i in range(shards):
-        env = dict(VERIF_EDGES=edges, VERIF_CONST=json.dumps(const), VERIF_SHARD=i, VERIF_SHARDS=shards,
-                   VERIF_REJ_SAMPLE=rej_sample, VERIF_EXPLORE=explore,
-                   VERIF_TRACES=work.path("%s-traces-%d.ndjson" % (tag, i)),
-                   VERIF_STATS=work.path("%s-stats-%d.json" % (tag, i)))
-        env.update(extra_env or {})
-        procs.append((i, run_harness(work, binary, test, env, work.path("%s-replay-%d.log" % (tag, i)))))
-    stats, traces = [], []
-    for i, p in procs:
-        rc = p.wait()
-        sp = work.path("%s-stats-%d.json" % (tag, i))
-        if rc != 0 or not os.path.exists(sp):
-            tail = open(work.path("%s-replay-%d.log" % (tag, i)), errors="replace").read()[-3000:]
-            raise Infra("replay shard %d failed (rc=%s):\n%s" % (i, rc, tail))
-        stats.append(json.load(open(sp)))
-        traces.append(work.path("%s-traces-%d.ndjson" % (tag, i)))
+    # compile TLC's output once into the compact graph the shards load
+    comp = work.path("compile.bin")
+    if not os.path.exists(comp):
+        hdir = work.path("harness")
+        p = subprocess.run(["go", "build", "-o", comp, "./cmd/compile"], cwd=hdir, env=dict(os.environ, **GOENV),
+                           stdout=subprocess.PIPE, stderr=subprocess.STDOUT, text=True)
+        if p.returncode != 0:
+            raise Infra("compile tool build failed:\n" + p.stdout[-2000:])
+    compact = edges + ".graph"
+    if not os.path.exists(compact):
+        p = subprocess.run([comp, edges, compact], stdout=subprocess.PIPE, stderr=subprocess.STDOUT, text=True)
+        if p.returncode != 0:
+            raise Infra("graph compile failed:\n" + p.stdout[-2000:])
+        log(p.stdout.strip())
+    edges = compact
+    pending = list(range(shards))
+    running = {}
+    stats, traces = [None] * shards, [None] * shards
+    while pending or running:
+        # start as many shards as there are free slots
+        while pending:
+            held = acquire_slots(1, block=not running)
+            if held is None:
+                break
+            i = pending.pop(0)
+            env = dict(VERIF_EDGES=edges, VERIF_CONST=json.dumps(const), VERIF_SHARD=i, VERIF_SHARDS=shards,
+                       VERIF_REJ_SAMPLE=rej_sample, VERIF_EXPLORE=explore,
+                       VERIF_TRACES=work.path("%s-traces-%d.ndjson" % (tag, i)),
+                       VERIF_STATS=work.path("%s-stats-%d.json" % (tag, i)))
+            env.update(extra_env or {})
+            running[i] = (run_harness(work, binary, test, env, work.path("%s-replay-%d.log" % (tag, i))), held)
+        done = [i for i, (p, _) in running.items() if p.poll() is not None]
+        if not done:
+            time.sleep(0.3)
+            continue
+        for i in done:
+            p, held = running.pop(i)
+            release_slots(held)
+            sp = work.path("%s-stats-%d.json" % (tag, i))
+            if p.returncode != 0 or not os.path.exists(sp):
+                for q, h in running.values():
+                    q.kill()
+                    release_slots(h)
+                tail = open(work.path("%s-replay-%d.log" % (tag, i)), errors="replace").read()[-3000:]
+                raise Infra("replay shard %d failed (rc=%s):\n%s" % (i, p.returncode, tail))
+            stats[i] = json.load(open(sp))
+            traces[i] = work.path("%s-traces-%d.ndjson" % (tag, i))
     return stats, traces
 
 
